@@ -150,7 +150,7 @@ func (c *wtCase) flush(mainEvent string) {
 
 // settle: wait until every started waiter has returned or is parked in its select.
 func (c *wtCase) settle() {
-	deadline := time.Now().Add(2 * time.Second)
+	deadline := time.Now().Add(settleBound)
 	for {
 		stable := true
 		var gs map[int64]goState
@@ -187,7 +187,7 @@ func (c *wtCase) settle() {
 			return
 		}
 		if time.Now().After(deadline) {
-			c.ctx.R.Quiet("mon C07-returns-promptly", "a waiter neither returned nor parked within 2s")
+			c.ctx.R.Quiet("mon C07-returns-promptly", "a waiter neither returned nor parked within 10s")
 			c.failed = true
 			return
 		}
